@@ -131,6 +131,9 @@ def run_check(prop, tier, seed):
         if bad:
             disagreements.append((req, impl, reply, j))
 
+    if hasattr(prop, "post_check"):
+        disagreements.extend(prop.post_check(results))
+
     # classify disagreements
     reported = 0
     known_hit = {}
